@@ -167,19 +167,43 @@ def build_history(codes, static):
 
 
 def check_history(codes, zeroed, any_state, min_int, allow_resets, static, is_reset=lambda o: getattr(o, "name", "") == "RESET",
-                  reset_wire=lambda o: o.w):
+                  reset_wire=lambda o: o.w, device=None, other_static=()):
     """run the real transform on the opcode program and replay its output against an independent lifetime model.
-    Returns (ok, reason).  Labels may be any objects supporting ==/hash (ints, strings, symbolic integers)."""
+    Returns (ok, reason).  Labels may be any objects supporting ==/hash (ints, strings, symbolic integers).
+
+    device = ("none",) | ("wires", [labels]): go through devices.preprocess.device_resolve_dynamic_wires instead; the registers the
+    DOCUMENTED rule gives (device wires not present in the tape / integers above every integer wire of the tape) are the model's
+    `zeroed` / `min_int`.  other_static: further static wires; one gate on each comes first in the tape, IN THIS ORDER."""
     h = build_history(codes, static)
     if h is None:
         return True, "ill-formed program (skipped)"
     ops, meta = h
-    tape = qp.tape.QuantumScript(ops, [qp.expval(qp.Z(static))])
-    min0 = min_int
+    prefix = [qp.PauliX(w) for w in other_static]
+    statics = list(other_static) + [static]
+    tape = qp.tape.QuantumScript(prefix + ops, [qp.expval(qp.Z(static))])
     try:
-        (out,), _ = R.resolve_dynamic_wires(tape, zeroed=list(zeroed), any_state=list(any_state), min_int=min_int, allow_resets=allow_resets)
+        if device is None:
+            (out,), _ = R.resolve_dynamic_wires(tape, zeroed=list(zeroed), any_state=list(any_state), min_int=min_int, allow_resets=allow_resets)
+        else:
+            from pennylane.devices.preprocess import device_resolve_dynamic_wires
+
+            if device[0] == "none":
+                zeroed, any_state, min_int = [], [], None
+                for w in statics:  # documented: "the smallest integer that is larger than all integer wires present in the tape"
+                    if isinstance(w, int) and (min_int is None or w + 1 > min_int):
+                        min_int = w + 1
+                min_int = 0 if min_int is None else min_int
+                (out,), _ = device_resolve_dynamic_wires(tape, None, allow_resets=allow_resets)
+            else:
+                dev_wires = list(device[1])
+                zeroed, any_state, min_int = [w for w in dev_wires if not any(w == t for t in statics)], [], None
+                (out,), _ = device_resolve_dynamic_wires(tape, qp.wires.Wires(dev_wires), allow_resets=allow_resets)
     except AllocationError:
-        return (min_int is None), "AllocationError" + ("" if min_int is None else " although min_int allows new wires")
+        return (min_int is None), "AllocationError" + ("" if min_int is None else " although new integer wires may be created")
+    min0 = min_int
+    got_prefix = list(out.operations)[: len(prefix)]
+    if len(got_prefix) != len(prefix) or any(not (a.name == b.name and len(a.wires) == 1 and a.wires[0] == b.wires[0]) for a, b in zip(got_prefix, prefix)):
+        return False, "static operations changed"
     handed = list(zeroed) + list(any_state)
     clean = {}
     for w in zeroed:
@@ -187,7 +211,7 @@ def check_history(codes, zeroed, any_state, min_int, allow_resets, static, is_re
     for w in any_state:
         clean[w] = False
     live_dyn, assigned = [], {}
-    out_ops = list(out.operations)
+    out_ops = list(out.operations)[len(prefix):]
     k = 0
     for op in ops:
         if op.name == "Allocate":
@@ -219,8 +243,8 @@ def check_history(codes, zeroed, any_state, min_int, allow_resets, static, is_re
                 return False, "gate wires do not match the live dynamic wires + static wire"
             dyn_ws = ws[:-1]
             for i in range(len(dyn_ws)):
-                if dyn_ws[i] == static:
-                    return False, "a dynamic wire landed on the static circuit wire"
+                if any(dyn_ws[i] == t for t in statics):
+                    return False, "a dynamic wire landed on a static circuit wire"
                 for j in range(i):
                     if dyn_ws[i] == dyn_ws[j]:
                         return False, "two simultaneously live dynamic wires share a concrete wire"
